@@ -2,54 +2,28 @@
 
 package main
 
+// C04 facts. Every extractor reads *semantics* (see c04_eval.go): locals are
+// identified by role / parameter position, comparisons are canonicalised,
+// decision tables are obtained by evaluating the code on class
+// representatives, so that renames, flipped operands, if-chain <-> switch,
+// hoisted locals, extracted helpers and reordered independent statements
+// yield the same facts.
+
 import (
 	"fmt"
 	"go/ast"
 	"go/printer"
 	"go/token"
+	"sort"
 	"strings"
 )
 
 func init() { jobs = append(jobs, job{props: []string{"C04"}, fn: genC04}) }
 
-// c04BuilderCalls returns the ordered (method, first-argument expression)
-// list of the `builder.<Method>(<arg>)` statements of a function body.
-func c04BuilderCalls(fd *ast.FuncDecl, what string) [][2]string {
-	var res [][2]string
-	if fd == nil {
-		fail("C04: function %s not found", what)
-		return nil
-	}
-	ast.Inspect(fd.Body, func(n ast.Node) bool {
-		es, ok := n.(*ast.ExprStmt)
-		if !ok {
-			return true
-		}
-		call, ok := es.X.(*ast.CallExpr)
-		if !ok {
-			return true
-		}
-		sel, ok := call.Fun.(*ast.SelectorExpr)
-		if !ok {
-			return true
-		}
-		id, ok := sel.X.(*ast.Ident)
-		if !ok || id.Name != "builder" {
-			return true
-		}
-		arg := ""
-		if len(call.Args) == 1 {
-			arg = exprString(call.Args[0])
-		} else {
-			fail("C04: %s: builder.%s with %d args", what, sel.Sel.Name, len(call.Args))
-		}
-		res = append(res, [2]string{sel.Sel.Name, arg})
-		return true
-	})
-	if len(res) == 0 {
-		fail("C04: no builder calls found in %s", what)
-	}
-	return res
+func c04NodeString(n ast.Node) string {
+	var sb strings.Builder
+	printer.Fprint(&sb, fset, n)
+	return sb.String()
 }
 
 func c04Pairs(xs [][2]string) string {
@@ -60,79 +34,6 @@ func c04Pairs(xs [][2]string) string {
 	return "[" + strings.Join(q, ", ") + "]"
 }
 
-// c04WitnessLayout returns the element expressions of
-// `witness := make(wire.TxWitness, N); witness[i] = <expr>`.
-func c04WitnessLayout(fd *ast.FuncDecl, what string) []string {
-	if fd == nil {
-		fail("C04: function %s not found", what)
-		return nil
-	}
-	n := -1
-	elems := map[int]string{}
-	for _, st := range fd.Body.List {
-		as, ok := st.(*ast.AssignStmt)
-		if !ok || len(as.Lhs) != 1 || len(as.Rhs) != 1 {
-			continue
-		}
-		if id, ok := as.Lhs[0].(*ast.Ident); ok && id.Name == "witness" {
-			call, ok := as.Rhs[0].(*ast.CallExpr)
-			if ok && len(call.Args) == 2 && exprString(call.Fun) == "make" {
-				if lit, ok := call.Args[1].(*ast.BasicLit); ok {
-					fmt.Sscanf(lit.Value, "%d", &n)
-				}
-			}
-			continue
-		}
-		if ix, ok := as.Lhs[0].(*ast.IndexExpr); ok {
-			if id, ok := ix.X.(*ast.Ident); ok && id.Name == "witness" {
-				if lit, ok := ix.Index.(*ast.BasicLit); ok {
-					var i int
-					fmt.Sscanf(lit.Value, "%d", &i)
-					elems[i] = exprString(as.Rhs[0])
-				}
-			}
-		}
-	}
-	if n < 0 || len(elems) != n {
-		fail("C04: %s: witness layout not recognised (n=%d, %d elems)", what, n, len(elems))
-		return nil
-	}
-	res := make([]string, n)
-	for i := 0; i < n; i++ {
-		e, ok := elems[i]
-		if !ok {
-			fail("C04: %s: witness[%d] not assigned", what, i)
-		}
-		res[i] = e
-	}
-	return res
-}
-
-func c04FlattenOr(e ast.Expr) []string {
-	if p, ok := e.(*ast.ParenExpr); ok {
-		return c04FlattenOr(p.X)
-	}
-	if b, ok := e.(*ast.BinaryExpr); ok && b.Op == token.LOR {
-		return append(c04FlattenOr(b.X), c04FlattenOr(b.Y)...)
-	}
-	if c, ok := e.(*ast.CallExpr); ok {
-		s := exprString(c.Fun)
-		if i := strings.LastIndex(s, "."); i >= 0 {
-			s = s[i+1:]
-		}
-		return []string{s}
-	}
-	return []string{"?" + exprString(e)}
-}
-
-func c04CaseNames(cc *ast.CaseClause) []string {
-	var res []string
-	for _, e := range cc.List {
-		res = append(res, exprString(e))
-	}
-	return res
-}
-
 func c04ListOfLists(xs [][]string) string {
 	q := make([]string, len(xs))
 	for i, x := range xs {
@@ -141,114 +42,536 @@ func c04ListOfLists(xs [][]string) string {
 	return "[" + strings.Join(q, ", ") + "]"
 }
 
-// c04SwitchReturnTable: `switch <tag> { case A, B: return X ... default: return Y }`
-// → rows (case names, returned expression); default has no names.
-func c04SwitchReturnTable(fd *ast.FuncDecl, what string) (rows [][]string, rets []string) {
+// c04ParamRoles: parameter i -> "$p<i>", every other local -> "$v".
+func c04ParamRoles(fd *ast.FuncDecl) map[string]string {
+	roles := map[string]string{}
+	ast.Inspect(fd.Body, func(n ast.Node) bool {
+		if as, ok := n.(*ast.AssignStmt); ok && as.Tok == token.DEFINE {
+			for _, l := range as.Lhs {
+				if id, ok := l.(*ast.Ident); ok {
+					roles[id.Name] = "$v"
+				}
+			}
+		}
+		return true
+	})
+	for i, n := range c04ParamNames(fd.Type) {
+		roles[n] = fmt.Sprintf("$p%d", i)
+	}
+	return roles
+}
+
+func c04StripConv(e ast.Expr) ast.Expr {
+	for {
+		e = c04Unparen(e)
+		c, ok := e.(*ast.CallExpr)
+		if !ok || len(c.Args) != 1 {
+			return e
+		}
+		id, ok := c.Fun.(*ast.Ident)
+		if !ok || !c04ConvNames[id.Name] {
+			return e
+		}
+		e = c.Args[0]
+	}
+}
+
+// c04BuilderCalls: ordered (method, canonical argument) list of the calls on
+// the local that holds txscript.NewScriptBuilder(), fluent chains included.
+func c04BuilderCalls(fd *ast.FuncDecl, what string) [][2]string {
+	var res [][2]string
 	if fd == nil {
 		fail("C04: function %s not found", what)
-		return
+		return nil
 	}
-	var sw *ast.SwitchStmt
-	for _, st := range fd.Body.List {
-		if s, ok := st.(*ast.SwitchStmt); ok {
-			sw = s
-			break
+	roles := c04ParamRoles(fd)
+	builder := ""
+	ast.Inspect(fd.Body, func(n ast.Node) bool {
+		as, ok := n.(*ast.AssignStmt)
+		if !ok || len(as.Lhs) != 1 || len(as.Rhs) != 1 {
+			return true
 		}
+		root := as.Rhs[0]
+		for {
+			c, ok := root.(*ast.CallExpr)
+			if !ok {
+				break
+			}
+			if exprString(c.Fun) == "txscript.NewScriptBuilder" {
+				if id, ok := as.Lhs[0].(*ast.Ident); ok && builder == "" {
+					builder = id.Name
+				}
+			}
+			se, ok := c.Fun.(*ast.SelectorExpr)
+			if !ok {
+				break
+			}
+			root = se.X
+		}
+		return true
+	})
+	if builder == "" {
+		fail("C04: %s: no script builder local found", what)
+		return nil
 	}
-	if sw == nil {
-		fail("C04: %s: no switch", what)
-		return
-	}
-	for _, c := range sw.Body.List {
-		cc := c.(*ast.CaseClause)
-		ret := ""
-		for _, st := range cc.Body {
-			if r, ok := st.(*ast.ReturnStmt); ok && len(r.Results) >= 1 {
-				ret = exprString(r.Results[0])
-			}
+	var chain func(e ast.Expr) bool
+	chain = func(e ast.Expr) bool {
+		c, ok := c04Unparen(e).(*ast.CallExpr)
+		if !ok {
+			id, isID := c04Unparen(e).(*ast.Ident)
+			return isID && id.Name == builder
 		}
-		if ret == "" {
-			fail("C04: %s: case without return", what)
+		if exprString(c.Fun) == "txscript.NewScriptBuilder" {
+			return true
 		}
-		rows = append(rows, c04CaseNames(cc))
-		rets = append(rets, ret)
-	}
-	return
-}
-
-func c04NodeString(n ast.Node) string {
-	var sb strings.Builder
-	printer.Fprint(&sb, fset, n)
-	return sb.String()
-}
-
-// c04WalkConds visits every node of a body together with the conditions of
-// the enclosing `if` statements and `case` clauses (outermost first).
-func c04WalkConds(n ast.Node, conds []string, visit func(ast.Node, []string)) {
-	switch x := n.(type) {
-	case nil:
-		return
-	case *ast.BlockStmt:
-		for _, st := range x.List {
-			c04WalkConds(st, conds, visit)
+		se, ok := c.Fun.(*ast.SelectorExpr)
+		if !ok || !chain(se.X) {
+			return false
 		}
-	case *ast.IfStmt:
-		if x.Init != nil {
-			c04WalkConds(x.Init, conds, visit)
+		switch se.Sel.Name {
+		case "Script", "Reset":
+			return true
 		}
-		cond := strings.Join(strings.Fields(exprString(x.Cond)), " ")
-		c04WalkConds(x.Body, append(append([]string{}, conds...), cond), visit)
-		if x.Else != nil {
-			c04WalkConds(x.Else, append(append([]string{}, conds...), "!("+cond+")"), visit)
+		if len(c.Args) != 1 {
+			fail("C04: %s: builder.%s with %d args", what, se.Sel.Name, len(c.Args))
+			return true
 		}
-	case *ast.SwitchStmt:
-		tag := ""
-		if x.Tag != nil {
-			tag = exprString(x.Tag)
+		arg := c.Args[0]
+		if se.Sel.Name == "AddInt64" {
+			arg = c04StripConv(arg)
 		}
-		for _, c := range x.Body.List {
-			cc := c.(*ast.CaseClause)
-			var names []string
-			for _, e := range cc.List {
-				names = append(names, exprString(e))
-			}
-			label := "switch " + tag + " default"
-			if cc.List != nil {
-				label = "switch " + tag + " case " + strings.Join(names, ",")
-			}
-			for _, st := range cc.Body {
-				c04WalkConds(st, append(append([]string{}, conds...), label), visit)
-			}
-		}
-	case *ast.ForStmt:
-		c04WalkConds(x.Body, conds, visit)
-	case *ast.RangeStmt:
-		c04WalkConds(x.Body, conds, visit)
-	default:
-		visit(n, conds)
-		ast.Inspect(n, func(m ast.Node) bool {
-			if m == nil || m == n {
+		if se.Sel.Name == "AddOps" {
+			if cl, ok := c04Unparen(arg).(*ast.CompositeLit); ok {
+				for _, el := range cl.Elts {
+					res = append(res, [2]string{"AddOp", c04Canon(el, roles)})
+				}
 				return true
 			}
-			if _, isFn := m.(*ast.FuncLit); isFn {
-				return false
-			}
-			visit(m, conds)
-			return true
-		})
+		}
+		res = append(res, [2]string{se.Sel.Name, c04Canon(arg, roles)})
+		return true
 	}
+	var walk func(list []ast.Stmt)
+	walk = func(list []ast.Stmt) {
+		for _, st := range list {
+			switch x := st.(type) {
+			case *ast.ExprStmt:
+				chain(x.X)
+			case *ast.AssignStmt:
+				for _, r := range x.Rhs {
+					chain(r)
+				}
+			case *ast.ReturnStmt:
+				for _, r := range x.Results {
+					chain(r)
+				}
+			case *ast.BlockStmt:
+				walk(x.List)
+			case *ast.IfStmt:
+				// builder calls under a condition are not understood by the model
+				ast.Inspect(x.Body, func(n ast.Node) bool {
+					if c, ok := n.(*ast.CallExpr); ok {
+						if se, ok := c.Fun.(*ast.SelectorExpr); ok {
+							if id, ok := se.X.(*ast.Ident); ok && id.Name == builder && strings.HasPrefix(se.Sel.Name, "Add") {
+								res = append(res, [2]string{"conditional:" + se.Sel.Name, c04Canon(x.Cond, roles)})
+							}
+						}
+					}
+					return true
+				})
+			}
+		}
+	}
+	walk(fd.Body.List)
+	if len(res) == 0 {
+		fail("C04: no builder calls found in %s", what)
+	}
+	return res
+}
+
+// c04WitnessLayout: the elements of the witness a Spend* function returns, by
+// parameter position ("$p<i>", "nil"); `make` + index assignments or a
+// composite literal.
+func c04WitnessLayout(fd *ast.FuncDecl, what string) []string {
+	if fd == nil {
+		fail("C04: function %s not found", what)
+		return nil
+	}
+	roles := c04ParamRoles(fd)
+	n := -1
+	wname := ""
+	elems := map[int]string{}
+	var lit []string
+	ast.Inspect(fd.Body, func(nd ast.Node) bool {
+		switch x := nd.(type) {
+		case *ast.CompositeLit:
+			if strings.HasSuffix(exprString(x.Type), "TxWitness") && lit == nil {
+				lit = []string{}
+				for _, e := range x.Elts {
+					lit = append(lit, c04Canon(e, roles))
+				}
+			}
+		case *ast.AssignStmt:
+			if len(x.Lhs) != 1 || len(x.Rhs) != 1 {
+				return true
+			}
+			if id, ok := x.Lhs[0].(*ast.Ident); ok {
+				if call, ok := x.Rhs[0].(*ast.CallExpr); ok && len(call.Args) >= 2 && exprString(call.Fun) == "make" &&
+					strings.HasSuffix(exprString(call.Args[0]), "TxWitness") {
+					if l, ok := call.Args[1].(*ast.BasicLit); ok {
+						fmt.Sscanf(l.Value, "%d", &n)
+						wname = id.Name
+					}
+				}
+			}
+			if ix, ok := x.Lhs[0].(*ast.IndexExpr); ok {
+				if id, ok := ix.X.(*ast.Ident); ok && id.Name == wname {
+					if l, ok := ix.Index.(*ast.BasicLit); ok {
+						var i int
+						fmt.Sscanf(l.Value, "%d", &i)
+						elems[i] = c04Canon(x.Rhs[0], roles)
+					}
+				}
+			}
+		}
+		return true
+	})
+	if lit != nil && n < 0 {
+		return lit
+	}
+	if n < 0 || len(elems) != n {
+		fail("C04: %s: witness layout not recognised (n=%d, %d elems)", what, n, len(elems))
+		return nil
+	}
+	res := make([]string, n)
+	for i := 0; i < n; i++ {
+		res[i] = elems[i]
+	}
+	return res
+}
+
+// c04ClassifierCalls: the classifier names a condition consists of (`||` of
+// poolscript.Is*Spend(w) calls, locals followed).
+func c04ClassifierCalls(e ast.Expr, defs map[string]ast.Expr) []string {
+	var res []string
+	for _, p := range c04Flatten(c04Subst(e, defs, 0), token.LOR) {
+		p = c04Unparen(p)
+		for {
+			if pe, ok := p.(*ast.ParenExpr); ok {
+				p = pe.X
+				continue
+			}
+			break
+		}
+		if sub := c04Flatten(p, token.LOR); len(sub) > 1 {
+			for _, s := range sub {
+				res = append(res, c04ClassifierCalls(s, defs)...)
+			}
+			continue
+		}
+		if c, ok := p.(*ast.CallExpr); ok {
+			s := exprString(c.Fun)
+			if i := strings.LastIndex(s, "."); i >= 0 {
+				s = s[i+1:]
+			}
+			res = append(res, s)
+		} else {
+			res = append(res, "?"+strings.Join(strings.Fields(exprString(p)), " "))
+		}
+	}
+	return res
+}
+
+func c04MentionsClassifier(e ast.Expr, defs map[string]ast.Expr) bool {
+	found := false
+	ast.Inspect(c04Subst(e, defs, 0), func(n ast.Node) bool {
+		if c, ok := n.(*ast.CallExpr); ok {
+			s := exprString(c.Fun)
+			if strings.Contains(s, "Is") && strings.HasSuffix(s, "Spend") {
+				found = true
+			}
+		}
+		return true
+	})
+	return found
+}
+
+// c04HandlerCases: the ordered decision list (tagless switch or if / else-if
+// chain) of HandleAccountSpend whose conditions call the Is*Spend classifiers.
+func c04HandlerCases(fd *ast.FuncDecl) [][]string {
+	if fd == nil {
+		fail("C04: manager.HandleAccountSpend not found")
+		return nil
+	}
+	defs := c04LocalDefs(fd.Body)
+	var cases [][]string
+	done := false
+	ast.Inspect(fd.Body, func(n ast.Node) bool {
+		if done {
+			return false
+		}
+		switch x := n.(type) {
+		case *ast.SwitchStmt:
+			if x.Tag != nil {
+				return true
+			}
+			any := false
+			for _, c := range x.Body.List {
+				for _, e := range c.(*ast.CaseClause).List {
+					any = any || c04MentionsClassifier(e, defs)
+				}
+			}
+			if !any {
+				return true
+			}
+			hasDefault := false
+			for _, c := range x.Body.List {
+				cc := c.(*ast.CaseClause)
+				if cc.List == nil {
+					hasDefault = true
+					continue
+				}
+				var names []string
+				for _, e := range cc.List { // `case a, b:` is `a || b`
+					names = append(names, c04ClassifierCalls(e, defs)...)
+				}
+				cases = append(cases, names)
+			}
+			_ = hasDefault
+			cases = append(cases, []string{}) // default / nothing matched
+			done = true
+			return false
+		case *ast.IfStmt:
+			if !c04MentionsClassifier(x.Cond, defs) {
+				return true
+			}
+			var cur ast.Stmt = x
+			for cur != nil {
+				ifs, ok := cur.(*ast.IfStmt)
+				if !ok {
+					break
+				}
+				cases = append(cases, c04ClassifierCalls(ifs.Cond, defs))
+				cur = ifs.Else
+			}
+			cases = append(cases, []string{})
+			done = true
+			return false
+		}
+		return true
+	})
+	if !done {
+		fail("C04: HandleAccountSpend: classification decision list not found")
+	}
+	// within one case the classifiers are `||`-ed: a set
+	for _, c := range cases {
+		sort.Strings(c)
+	}
+	return cases
+}
+
+// c04EvalFunc evaluates a function / method body with the given parameter and
+// selector values and returns its first result in canonical text.
+func c04EvalFunc(ce *constEnv, files []*ast.File, fd *ast.FuncDecl, vars, sel map[string]c04V) (string, *c04Ev) {
+	ev := &c04Ev{ce: ce, files: files, vars: vars, sel: sel, roles: map[string]string{}}
+	ret, ok := ev.stmts(fd.Body.List)
+	if !ok || len(ret) == 0 {
+		ev.fail("no return reached")
+		return "?", ev
+	}
+	return ret[0].String(), ev
+}
+
+func c04RecvName(fd *ast.FuncDecl) string {
+	if fd.Recv != nil && len(fd.Recv.List) == 1 && len(fd.Recv.List[0].Names) == 1 {
+		return fd.Recv.List[0].Names[0].Name
+	}
+	return "_"
+}
+
+var c04WTNames = []string{"expiryWitness", "multiSigWitness", "expiryTaproot", "muSig2Taproot"}
+
+// c04MethodTable: result of a one-receiver method for each named constant and
+// for one other value.
+func c04MethodTable(l *leanFile, ce *constEnv, files []*ast.File, method, leanName, doc string, names []string) {
+	fd := findFunc(files, method)
+	var rows []string
+	if fd == nil {
+		fail("C04: %s not found", method)
+	} else {
+		vals := map[string]int64{}
+		for _, n := range names {
+			fmt.Sscanf(intConst(ce, "account", n), "%d", new(int64))
+			var v int64
+			fmt.Sscanf(intConst(ce, "account", n), "%d", &v)
+			vals[n] = v
+		}
+		for _, n := range append(append([]string{}, names...), "other") {
+			v, ok := vals[n]
+			if !ok {
+				v = 200
+			}
+			res, ev := c04EvalFunc(ce, files, fd, map[string]c04V{c04RecvName(fd): c04Int(v)}, map[string]c04V{})
+			if ev.bad != "" {
+				fail("C04: %s: %s", method, ev.bad)
+			}
+			rows = append(rows, fmt.Sprintf("(%q, %q)", n, res))
+		}
+	}
+	l.p("/-- %s -/", doc)
+	l.p("def %s : List (String × String) := [%s]", leanName, strings.Join(rows, ", "))
+}
+
+// c04AssignsTo reports whether a statement (at any depth) declares or assigns name.
+func c04AssignsTo(st ast.Stmt, name string) bool {
+	found := false
+	ast.Inspect(st, func(n ast.Node) bool {
+		switch x := n.(type) {
+		case *ast.AssignStmt:
+			for _, l := range x.Lhs {
+				if id, ok := l.(*ast.Ident); ok && id.Name == name {
+					found = true
+				}
+			}
+		case *ast.ValueSpec:
+			for _, id := range x.Names {
+				if id.Name == name {
+					found = true
+				}
+			}
+		}
+		return true
+	})
+	return found
+}
+
+// c04DefiningStmts returns the top-level statements of body that (transitively)
+// define the local `name`: statements assigning name, or assigning a local a
+// right-hand side of those statements mentions.
+func c04DefiningStmts(body *ast.BlockStmt, name string, params []string) []ast.Stmt {
+	isParam := map[string]bool{}
+	for _, p := range params {
+		isParam[p] = true
+	}
+	want := map[string]bool{name: true}
+	for changed := true; changed; {
+		changed = false
+		for _, st := range body.List {
+			hit := false
+			for w := range want {
+				hit = hit || c04AssignsTo(st, w)
+			}
+			if !hit {
+				continue
+			}
+			ast.Inspect(st, func(n ast.Node) bool {
+				var rhs []ast.Expr
+				switch x := n.(type) {
+				case *ast.AssignStmt:
+					for _, l := range x.Lhs {
+						if id, ok := l.(*ast.Ident); ok && want[id.Name] {
+							rhs = x.Rhs
+						}
+					}
+				case *ast.ValueSpec:
+					rhs = x.Values
+				}
+				for _, r := range rhs {
+					ast.Inspect(r, func(m ast.Node) bool {
+						if se, ok := m.(*ast.SelectorExpr); ok {
+							// only the root of a selector chain can be a local
+							if id, ok := se.X.(*ast.Ident); ok && !isParam[id.Name] && !want[id.Name] && c04IsLocal(body, id.Name) {
+								want[id.Name] = true
+								changed = true
+							}
+							return false
+						}
+						if id, ok := m.(*ast.Ident); ok && !isParam[id.Name] && !want[id.Name] && c04IsLocal(body, id.Name) {
+							want[id.Name] = true
+							changed = true
+						}
+						return true
+					})
+				}
+				return true
+			})
+		}
+	}
+	var res []ast.Stmt
+	for _, st := range body.List {
+		for w := range want {
+			if c04AssignsTo(st, w) {
+				res = append(res, st)
+				break
+			}
+		}
+	}
+	return res
+}
+
+// c04IsLocal: name is declared by a top-level `:=` / `var` of body with a
+// single-valued right-hand side (multi-value call results stay opaque).
+func c04IsLocal(body *ast.BlockStmt, name string) bool {
+	for _, st := range body.List {
+		switch x := st.(type) {
+		case *ast.AssignStmt:
+			if x.Tok == token.DEFINE && len(x.Lhs) == len(x.Rhs) {
+				for _, l := range x.Lhs {
+					if id, ok := l.(*ast.Ident); ok && id.Name == name {
+						return true
+					}
+				}
+			}
+		case *ast.DeclStmt:
+			if gd, ok := x.Decl.(*ast.GenDecl); ok {
+				for _, sp := range gd.Specs {
+					if vs, ok := sp.(*ast.ValueSpec); ok {
+						for _, id := range vs.Names {
+							if id.Name == name {
+								return true
+							}
+						}
+					}
+				}
+			}
+		}
+	}
+	return false
+}
+
+// c04CallArg finds the first call whose callee's selector / name is fn and
+// returns its i-th argument.
+func c04CallArg(body *ast.BlockStmt, fn string, i int) ast.Expr {
+	var res ast.Expr
+	ast.Inspect(body, func(n ast.Node) bool {
+		c, ok := n.(*ast.CallExpr)
+		if !ok || res != nil {
+			return res == nil
+		}
+		name := exprString(c.Fun)
+		if j := strings.LastIndex(name, "."); j >= 0 {
+			name = name[j+1:]
+		}
+		if name == fn && len(c.Args) > i {
+			res = c.Args[i]
+		}
+		return true
+	})
+	return res
 }
 
 func genC04() {
 	l := newLean("C04Facts", "C04: script builder call lists, witness layouts, classifier order, "+
-		"witness-type tables and size constants read from poolscript/script.go and account/manager.go.")
+		"witness-type decision tables, modifier / storer / verifier rules and size constants read semantically "+
+		"from poolscript/script.go, account/manager.go, account/interfaces.go, order/batch_storer.go, order/batch_verifier.go.")
 	l.p("namespace Pool.Gen.C04")
 
 	ps := pkgFiles("poolscript")
 	acct := pkgFiles("account")
 
 	// --- script builder call sequences ---------------------------------
-	l.p("/-- ordered `builder.<Method>(<arg>)` calls of poolscript.accountWitnessScript -/")
+	l.p("/-- ordered builder calls of poolscript.accountWitnessScript: (method, argument with `$p<i>` = i-th parameter,")
+	l.p("`$v` = a local) -/")
 	l.p("def accountWitnessScriptCalls : List (String × String) := %s",
 		c04Pairs(c04BuilderCalls(findFunc(ps, "accountWitnessScript"), "accountWitnessScript")))
 	l.p("/-- ordered builder calls of poolscript.TaprootExpiryScript -/")
@@ -262,13 +585,13 @@ func genC04() {
 		"TaprootExpiryWitnessSize"} {
 		l.p("def %s : Nat := %s", n, intConst(ce, "poolscript", n))
 	}
-	// local const minScriptLen = TaprootExpiryScriptSize - 3 in IsTaprootExpirySpend
+	// lower bound of the leaf script length in IsTaprootExpirySpend: `TaprootExpiryScriptSize - k`, wherever it is written
 	minLen := ""
 	if fd := findFunc(ps, "IsTaprootExpirySpend"); fd != nil {
 		ast.Inspect(fd.Body, func(n ast.Node) bool {
-			vs, ok := n.(*ast.ValueSpec)
-			if ok && len(vs.Names) == 1 && vs.Names[0].Name == "minScriptLen" && len(vs.Values) == 1 {
-				if v, ok := ce.eval(vs.Values[0], 0); ok {
+			b, ok := n.(*ast.BinaryExpr)
+			if ok && b.Op == token.SUB && minLen == "" && exprString(c04Unparen(b.X)) == "TaprootExpiryScriptSize" {
+				if v, ok := ce.eval(b, 0); ok {
 					minLen = v.ExactString()
 				}
 			}
@@ -276,7 +599,7 @@ func genC04() {
 		})
 	}
 	if minLen == "" {
-		fail("C04: IsTaprootExpirySpend.minScriptLen not found")
+		fail("C04: IsTaprootExpirySpend: minimal script length not found")
 		minLen = "0"
 	}
 	l.p("def taprootExpiryMinScriptLen : Nat := %s", minLen)
@@ -289,210 +612,264 @@ func genC04() {
 	}
 
 	// --- HandleAccountSpend classification order ------------------------
-	var cases [][]string
-	if fd := findFunc(acct, "manager.HandleAccountSpend"); fd != nil {
-		var sw *ast.SwitchStmt
-		for _, st := range fd.Body.List {
-			if s, ok := st.(*ast.SwitchStmt); ok && s.Tag == nil {
-				sw = s
-				break
-			}
-		}
-		if sw == nil {
-			fail("C04: HandleAccountSpend: tagless switch not found")
-		} else {
-			for _, c := range sw.Body.List {
-				cc := c.(*ast.CaseClause)
-				if cc.List == nil {
-					cases = append(cases, []string{})
-					continue
-				}
-				if len(cc.List) != 1 {
-					fail("C04: HandleAccountSpend: case with %d exprs", len(cc.List))
-					continue
-				}
-				cases = append(cases, c04FlattenOr(cc.List[0]))
-			}
-		}
-	} else {
-		fail("C04: manager.HandleAccountSpend not found")
-	}
-	l.p("/-- the `switch {…}` of manager.HandleAccountSpend: per case the `||`-ed classifier calls; [] = default -/")
-	l.p("def handleAccountSpendCases : List (List String) := %s", c04ListOfLists(cases))
+	l.p("/-- the decision list of manager.HandleAccountSpend: per case the `||`-ed classifier calls; [] = none matched -/")
+	l.p("def handleAccountSpendCases : List (List String) := %s",
+		c04ListOfLists(c04HandlerCases(findFunc(acct, "manager.HandleAccountSpend"))))
 
-	// --- witnessType enum and tables --------------------------------------
+	// --- enums -----------------------------------------------------------------
 	ace := newConstEnv(acct)
 	var wtNames []string
-	for _, n := range []string{"expiryWitness", "multiSigWitness", "expiryTaproot", "muSig2Taproot"} {
-		wtNames = append(wtNames, fmt.Sprintf("(%q, %s)", n, intConst(ace, "account", n)))
+	wtVal := map[string]int64{}
+	for _, n := range c04WTNames {
+		s := intConst(ace, "account", n)
+		wtNames = append(wtNames, fmt.Sprintf("(%q, %s)", n, s))
+		var v int64
+		fmt.Sscanf(s, "%d", &v)
+		wtVal[n] = v
 	}
 	l.p("def witnessTypeValues : List (String × Nat) := [%s]", strings.Join(wtNames, ", "))
-
 	var vNames []string
+	verVals := []int64{}
 	for _, n := range []string{"VersionInitialNoVersion", "VersionTaprootEnabled", "VersionMuSig2V100RC2"} {
-		vNames = append(vNames, fmt.Sprintf("(%q, %s)", n, intConst(ace, "account", n)))
+		s := intConst(ace, "account", n)
+		vNames = append(vNames, fmt.Sprintf("(%q, %s)", n, s))
+		var v int64
+		fmt.Sscanf(s, "%d", &v)
+		verVals = append(verVals, v)
 	}
 	l.p("def accountVersionValues : List (String × Nat) := [%s]", strings.Join(vNames, ", "))
 	l.p("def stateExpired : Nat := %s", intConst(ace, "account", "StateExpired"))
-
-	emitTable := func(name, doc string, rows [][]string, rets []string) {
-		q := make([]string, len(rows))
-		for i := range rows {
-			q[i] = fmt.Sprintf("(%s, %q)", leanStrList(rows[i]), rets[i])
-		}
-		l.p("/-- %s -/", doc)
-		l.p("def %s : List (List String × String) := [%s]", name, strings.Join(q, ", "))
+	stateVals := []int64{}
+	for _, n := range []string{"StateInitiated", "StatePendingOpen", "StatePendingUpdate", "StateOpen", "StateExpired",
+		"StatePendingClosed", "StateClosed", "StateCanceledAfterRecovery", "StatePendingBatch", "StateExpiredPendingUpdate"} {
+		var v int64
+		fmt.Sscanf(intConst(ace, "account", n), "%d", &v)
+		stateVals = append(stateVals, v)
 	}
-	rows, rets := c04SwitchReturnTable(findFunc(acct, "witnessType.witnessSize"), "witnessType.witnessSize")
-	emitTable("witnessSizeTable", "witnessType.witnessSize: case names → returned constant ([] = default)", rows, rets)
-	rows, rets = c04SwitchReturnTable(findFunc(acct, "witnessType.IsExpirySpend"), "witnessType.IsExpirySpend")
-	emitTable("witnessTypeIsExpiryTable", "witnessType.IsExpirySpend", rows, rets)
-	rows, rets = c04SwitchReturnTable(findFunc(acct, "Version.ScriptVersion"), "Version.ScriptVersion")
-	emitTable("scriptVersionTable", "account.Version.ScriptVersion", rows, rets)
 
-	// --- determineWitnessType ---------------------------------------------
-	// switch account.Version { case …: if <cond> { return A }; return B  default: idem }
+	// --- one-receiver method tables (evaluated) ------------------------------------
+	c04MethodTable(l, ace, acct, "witnessType.witnessSize", "witnessSizeTable",
+		"witnessType.witnessSize evaluated per witness type (and one other value): the returned size expression", c04WTNames)
+	c04MethodTable(l, ace, acct, "witnessType.IsExpirySpend", "witnessTypeIsExpiryTable",
+		"witnessType.IsExpirySpend evaluated per witness type", c04WTNames)
+	c04MethodTable(l, ace, acct, "Version.ScriptVersion", "scriptVersionTable",
+		"account.Version.ScriptVersion evaluated per account version",
+		[]string{"VersionInitialNoVersion", "VersionTaprootEnabled", "VersionMuSig2V100RC2"})
+
+	// --- determineWitnessType: decision table by evaluation on class representatives --------
 	{
 		fd := findFunc(acct, "determineWitnessType")
-		var out []string
+		var rows []string
+		vSpecial, sSpecial := []int64{}, []int64{}
+		vOther, sOther := int64(0), int64(0)
+		noArith := false
 		if fd == nil {
 			fail("C04: determineWitnessType not found")
 		} else {
-			var sw *ast.SwitchStmt
-			for _, st := range fd.Body.List {
-				if s, ok := st.(*ast.SwitchStmt); ok {
-					sw = s
-				}
-			}
-			if sw == nil || exprString(sw.Tag) != "account.Version" {
-				fail("C04: determineWitnessType: switch on account.Version not found")
+			params := c04ParamNames(fd.Type)
+			if len(params) != 2 {
+				fail("C04: determineWitnessType: %d parameters", len(params))
 			} else {
-				for _, c := range sw.Body.List {
-					cc := c.(*ast.CaseClause)
-					if len(cc.Body) != 2 {
-						fail("C04: determineWitnessType: unexpected case body (%d stmts)", len(cc.Body))
-						continue
+				maxOf := func(xs []int64) int64 {
+					m := int64(0)
+					for _, x := range xs {
+						if x > m {
+							m = x
+						}
 					}
-					ifs, ok1 := cc.Body[0].(*ast.IfStmt)
-					ret, ok2 := cc.Body[1].(*ast.ReturnStmt)
-					if !ok1 || !ok2 || ifs.Else != nil || ifs.Init != nil || len(ifs.Body.List) != 1 {
-						fail("C04: determineWitnessType: case body is not `if c {return a}; return b`")
-						continue
-					}
-					r1, ok := ifs.Body.List[0].(*ast.ReturnStmt)
-					if !ok || len(r1.Results) != 1 || len(ret.Results) != 1 {
-						fail("C04: determineWitnessType: returns not recognised")
-						continue
-					}
-					cond := strings.Join(strings.Fields(exprString(ifs.Cond)), " ")
-					out = append(out, fmt.Sprintf("(%s, %q, %q, %q)", leanStrList(c04CaseNames(cc)), cond,
-						exprString(r1.Results[0]), exprString(ret.Results[0])))
+					return m
 				}
+				vOther, sOther = maxOf(verVals)+1, maxOf(stateVals)+1
+				vReps := append(append([]int64{}, verVals...), vOther)
+				sReps := append(append([]int64{}, stateVals...), sOther)
+				const expiry = 100
+				eval := func(v, s, best int64) string {
+					res, ev := c04EvalFunc(ace, acct, fd, map[string]c04V{params[1]: c04Int(best)}, map[string]c04V{
+						params[0] + ".Version": c04Int(v), params[0] + ".State": c04Int(s), params[0] + ".Expiry": c04Int(expiry)})
+					if ev.bad != "" {
+						fail("C04: determineWitnessType: %s", ev.bad)
+					}
+					for n, val := range wtVal {
+						if res == fmt.Sprintf("%d", val) {
+							return n
+						}
+					}
+					return res
+				}
+				vec := func(v, s int64) string {
+					return eval(v, s, expiry-1) + "|" + eval(v, s, expiry) + "|" + eval(v, s, expiry+1)
+				}
+				// a version / state is "special" when its outcomes differ from those of the other-representative
+				for _, v := range verVals {
+					diff := false
+					for _, s := range sReps {
+						diff = diff || vec(v, s) != vec(vOther, s)
+					}
+					if diff {
+						vSpecial = append(vSpecial, v)
+					}
+				}
+				for _, s := range stateVals {
+					diff := false
+					for _, v := range vReps {
+						diff = diff || vec(v, s) != vec(v, sOther)
+					}
+					if diff {
+						sSpecial = append(sSpecial, s)
+					}
+				}
+				for _, v := range append(append([]int64{}, vSpecial...), vOther) {
+					for _, s := range append(append([]int64{}, sSpecial...), sOther) {
+						for rel, best := range []int64{expiry - 1, expiry, expiry + 1} {
+							rows = append(rows, fmt.Sprintf("(%d, %d, %d, %q)", v, s, rel, eval(v, s, best)))
+						}
+					}
+				}
+				noArith = !c04HasArith(fd.Body)
 			}
 		}
-		l.p("/-- determineWitnessType: (version case names ([] = default), condition, result if condition, result otherwise) -/")
-		l.p("def determineWitnessTypeTable : List (List String × String × String × String) := [%s]",
-			strings.Join(out, ", "))
+		nat := func(xs []int64) string {
+			q := make([]string, len(xs))
+			for i, x := range xs {
+				q[i] = fmt.Sprintf("%d", x)
+			}
+			return "[" + strings.Join(q, ", ") + "]"
+		}
+		l.p("/-- determineWitnessType evaluated on class representatives: account versions / states whose outcomes differ")
+		l.p("from those of every other value, the representative used for all other values, and the table")
+		l.p("(version key, state key, 0/1/2 = bestHeight </=/> expiry, returned witness type) -/")
+		l.p("def dwtVersionSpecial : List Nat := %s", nat(vSpecial))
+		l.p("def dwtVersionOther : Nat := %d", vOther)
+		l.p("def dwtStateSpecial : List Nat := %s", nat(sSpecial))
+		l.p("def dwtStateOther : Nat := %d", sOther)
+		l.p("def dwtTable : List (Nat × Nat × Nat × String) := [%s]", strings.Join(rows, ", "))
+		l.p("/-- the function contains no arithmetic: expiry and best height are only compared -/")
+		l.p("def dwtNoArith : Bool := %v", noArith)
 	}
 
-	// --- spendAccount lock time ---------------------------------------------
-	// switch witnessType { case …: [if action != CLOSE {return err}] lockTime = X … }
+	// --- spendAccount: the lock time per witness type (evaluated) --------------------------
 	{
 		fd := findFunc(acct, "manager.spendAccount")
-		var out []string
-		found := false
+		var rows []string
 		if fd == nil {
 			fail("C04: manager.spendAccount not found")
 		} else {
-			for _, st := range fd.Body.List {
-				sw, ok := st.(*ast.SwitchStmt)
-				if !ok || sw.Tag == nil || exprString(sw.Tag) != "witnessType" {
-					continue
+			params := c04ParamNames(fd.Type)
+			ltArg := c04CallArg(fd.Body, "signSpendTx", 3)
+			ltID, _ := ltArg.(*ast.Ident)
+			if len(params) != 7 || ltID == nil {
+				fail("C04: spendAccount: signature / lock-time argument of signSpendTx not recognised")
+			} else {
+				stmts := c04DefiningStmts(fd.Body, ltID.Name, params)
+				if len(stmts) == 0 {
+					fail("C04: spendAccount: no statement sets the lock time")
 				}
-				found = true
-				for _, c := range sw.Body.List {
-					cc := c.(*ast.CaseClause)
-					rhs := ""
-					guard := ""
-					for _, s := range cc.Body {
-						if as, ok := s.(*ast.AssignStmt); ok && len(as.Lhs) == 1 &&
-							exprString(as.Lhs[0]) == "lockTime" && as.Tok == token.ASSIGN {
-							rhs = exprString(as.Rhs[0])
+				const best = 12345
+				for _, wt := range append(append([]string{}, c04WTNames...), "other") {
+					v, ok := wtVal[wt]
+					if !ok {
+						v = 200
+					}
+					for _, isClose := range []bool{true, false} {
+						action := "CLOSE"
+						if !isClose {
+							action = "WITHDRAW"
 						}
-						if ifs, ok := s.(*ast.IfStmt); ok {
-							guard = exprString(ifs.Cond)
+						ev := &c04Ev{ce: ace, files: acct, roles: map[string]string{}, sel: map[string]c04V{},
+							vars: map[string]c04V{params[4]: c04Int(v), params[2]: c04Sym(action), params[6]: c04Int(best)}}
+						_, returned := ev.stmts(stmts)
+						res := "?"
+						switch lt := ev.vars[ltID.Name]; {
+						case returned:
+							res = "err"
+						case ev.bad != "":
+							fail("C04: spendAccount lock time: %s", ev.bad)
+						case lt.k == 'i' && lt.i == best:
+							res = "best"
+						case lt.k == 'i' && lt.i == 0:
+							res = "0"
 						}
+						rows = append(rows, fmt.Sprintf("(%q, %v, %q)", wt, isClose, res))
 					}
-					if cc.List == nil {
-						rhs = "error"
-					}
-					if rhs == "" {
-						fail("C04: spendAccount: case %v without lockTime assignment", c04CaseNames(cc))
-					}
-					out = append(out, fmt.Sprintf("(%s, %q, %q)", leanStrList(c04CaseNames(cc)), rhs, guard))
 				}
-			}
-			if !found {
-				fail("C04: spendAccount: switch witnessType not found")
 			}
 		}
-		l.p("/-- spendAccount: (witness type case names, expression assigned to lockTime, error guard) -/")
-		l.p("def spendAccountLockTimeTable : List (List String × String × String) := [%s]", strings.Join(out, ", "))
+		l.p("/-- spendAccount: (witness type, action == CLOSE, lock time: \"best\" = bestHeight | \"0\" | \"err\" = refused) -/")
+		l.p("def spendAccountLockTimeTable : List (String × Bool × String) := [%s]", strings.Join(rows, ", "))
 	}
 
-	// --- RenewAccount: spendWitnessType := A; if <cond> { spendWitnessType = B } ---------
+	// --- which witness type each account-spending method hands to spendAccount ----------------
 	{
-		fd := findFunc(acct, "manager.RenewAccount")
-		dflt, cond, thn := "", "", ""
-		if fd == nil {
-			fail("C04: manager.RenewAccount not found")
-		} else {
-			for i, st := range fd.Body.List {
-				as, ok := st.(*ast.AssignStmt)
-				if !ok || as.Tok != token.DEFINE || len(as.Lhs) != 1 || exprString(as.Lhs[0]) != "spendWitnessType" {
-					continue
-				}
-				dflt = exprString(as.Rhs[0])
-				if i+1 < len(fd.Body.List) {
-					if ifs, ok := fd.Body.List[i+1].(*ast.IfStmt); ok && ifs.Else == nil && len(ifs.Body.List) == 1 {
-						if as2, ok := ifs.Body.List[0].(*ast.AssignStmt); ok && len(as2.Lhs) == 1 &&
-							exprString(as2.Lhs[0]) == "spendWitnessType" {
-							cond = strings.Join(strings.Fields(exprString(ifs.Cond)), " ")
-							thn = exprString(as2.Rhs[0])
-						}
-					}
-				}
-			}
-			if dflt == "" || cond == "" || thn == "" {
-				fail("C04: RenewAccount: spendWitnessType rule not recognised")
-			}
-		}
-		l.p("/-- RenewAccount: (default witness type, condition, witness type if the condition holds) -/")
-		l.p("def renewWitnessTypeRule : String × String × String := (%q, %q, %q)", dflt, cond, thn)
-	}
-
-	// --- which expression chooses the witness type in each account-spending RPC ----------
-	{
-		var rows []string
+		var kinds, renew []string
 		for _, fn := range []string{"CloseAccount", "DepositAccount", "WithdrawAccount", "RenewAccount"} {
 			fd := findFunc(acct, "manager."+fn)
-			src := ""
-			if fd != nil {
-				ast.Inspect(fd.Body, func(n ast.Node) bool {
-					as, ok := n.(*ast.AssignStmt)
-					if ok && as.Tok == token.DEFINE && len(as.Lhs) == 1 && exprString(as.Lhs[0]) == "spendWitnessType" && src == "" {
-						src = exprString(as.Rhs[0])
+			kind := "?"
+			if fd == nil {
+				fail("C04: manager.%s not found", fn)
+			} else if id, ok := c04CallArg(fd.Body, "spendAccount", 4).(*ast.Ident); !ok {
+				fail("C04: %s: witness type argument of spendAccount not recognised", fn)
+			} else {
+				stmts := c04DefiningStmts(fd.Body, id.Name, c04ParamNames(fd.Type))
+				viaDWT := false
+				for _, st := range stmts {
+					ast.Inspect(st, func(n ast.Node) bool {
+						if c, ok := n.(*ast.CallExpr); ok && exprString(c.Fun) == "determineWitnessType" {
+							viaDWT = true
+						}
+						return true
+					})
+				}
+				switch {
+				case viaDWT && len(stmts) == 1:
+					kind = "determineWitnessType"
+				case !viaDWT && len(stmts) > 0:
+					kind = "own-rule"
+					if fn == "RenewAccount" {
+						// evaluate the rule per account version representative
+						sels := map[string]bool{}
+						for _, st := range stmts {
+							ast.Inspect(st, func(n ast.Node) bool {
+								if se, ok := n.(*ast.SelectorExpr); ok && se.Sel.Name == "Version" {
+									sels[exprString(se)] = true
+								}
+								// an account handed to a helper that holds the rule
+								if c, ok := n.(*ast.CallExpr); ok {
+									for _, a := range c.Args {
+										if id, ok := c04Unparen(a).(*ast.Ident); ok {
+											sels[id.Name+".Version"] = true
+										}
+									}
+								}
+								return true
+							})
+						}
+						for _, v := range []int64{0, 1, 2, 3} {
+							ev := &c04Ev{ce: ace, files: acct, roles: map[string]string{}, vars: map[string]c04V{}, sel: map[string]c04V{}}
+							for s := range sels {
+								ev.sel[s] = c04Int(v)
+							}
+							ev.stmts(stmts)
+							if ev.bad != "" {
+								fail("C04: RenewAccount witness type rule: %s", ev.bad)
+							}
+							r := ev.vars[id.Name]
+							name := r.String()
+							for n, val := range wtVal {
+								if r.k == 'i' && r.i == val {
+									name = n
+								}
+							}
+							renew = append(renew, fmt.Sprintf("(%d, %q)", v, name))
+						}
 					}
-					return true
-				})
+				}
 			}
-			if src == "" {
-				fail("C04: %s: spendWitnessType definition not found", fn)
-			}
-			rows = append(rows, fmt.Sprintf("(%q, %q)", fn, src))
+			kinds = append(kinds, fmt.Sprintf("(%q, %q)", fn, kind))
 		}
-		l.p("/-- the expression that defines `spendWitnessType` in each account-spending manager method -/")
-		l.p("def spendWitnessTypeSource : List (String × String) := [%s]", strings.Join(rows, ", "))
+		l.p("/-- how each account-spending manager method chooses the witness type it hands to spendAccount -/")
+		l.p("def spendWitnessTypeSource : List (String × String) := [%s]", strings.Join(kinds, ", "))
+		l.p("/-- RenewAccount's own rule evaluated per account version (3 stands for every version above 2) -/")
+		l.p("def renewWitnessTypeTable : List (Nat × String) := [%s]", strings.Join(renew, ", "))
 	}
 
 	// --- account.Modifier bodies (account/interfaces.go) ---------------------------------
@@ -504,10 +881,13 @@ func genC04() {
 			var stmts []string
 			found := false
 			if fd != nil {
+				roles := map[string]string{}
+				for _, n := range c04ParamNames(fd.Type) {
+					roles[n] = "$arg"
+				}
 				for _, st := range fd.Body.List {
 					ret, ok := st.(*ast.ReturnStmt)
 					if !ok || len(ret.Results) != 1 {
-						// anything besides `return func…` is part of the behaviour too
 						stmts = append(stmts, "outer: "+strings.Join(strings.Fields(c04NodeString(st)), " "))
 						continue
 					}
@@ -516,8 +896,17 @@ func genC04() {
 						continue
 					}
 					found = true
+					for _, n := range c04ParamNames(fl.Type) {
+						roles[n] = "$acct"
+					}
 					for _, b := range fl.Body.List {
-						stmts = append(stmts, strings.Join(strings.Fields(c04NodeString(b)), " "))
+						if as, ok := b.(*ast.AssignStmt); ok && len(as.Lhs) == 1 && len(as.Rhs) == 1 && as.Tok == token.ASSIGN {
+							stmts = append(stmts, c04Canon(as.Lhs[0], roles)+" = "+c04Canon(as.Rhs[0], roles))
+						} else if _, ok := b.(*ast.ExprStmt); ok {
+							continue // a call for effect (logging)
+						} else {
+							stmts = append(stmts, "stmt: "+strings.Join(strings.Fields(c04NodeString(b)), " "))
+						}
 					}
 				}
 			}
@@ -526,16 +915,177 @@ func genC04() {
 			}
 			rows = append(rows, fmt.Sprintf("(%q, %s)", fn, leanStrList(stmts)))
 		}
-		l.p("/-- statements of the closure each account.Modifier constructor returns -/")
+		l.p("/-- statements of the closure each account.Modifier constructor returns (`$acct` = the account, `$arg` = the")
+		l.p("constructor's parameter) -/")
 		l.p("def modifierBodies : List (String × List String) := [%s]", strings.Join(rows, ", "))
 	}
 
 	// --- what the batch storer stages for a re-created account vs what the verifier applied ---------
 	{
 		ord := pkgFiles("order")
+		oce := newConstEnv(ord)
 		var storer, verifier []string
+		roleOf := func(fd *ast.FuncDecl) map[string]string {
+			roles := map[string]string{}
+			if fd.Type.Params != nil {
+				for _, f := range fd.Type.Params.List {
+					if strings.HasSuffix(exprString(f.Type), "Batch") {
+						for _, n := range f.Names {
+							roles[n.Name] = "$batch"
+						}
+					}
+				}
+			}
+			ast.Inspect(fd.Body, func(n ast.Node) bool {
+				switch x := n.(type) {
+				case *ast.RangeStmt:
+					if se, ok := x.X.(*ast.SelectorExpr); ok && se.Sel.Name == "AccountDiffs" {
+						if id, ok := x.Value.(*ast.Ident); ok {
+							roles[id.Name] = "$diff"
+						}
+					}
+				case *ast.AssignStmt:
+					if len(x.Rhs) == 1 && len(x.Lhs) >= 1 {
+						if id, ok := x.Lhs[0].(*ast.Ident); ok {
+							switch r := x.Rhs[0].(type) {
+							case *ast.CallExpr:
+								if strings.HasSuffix(exprString(r.Fun), "getAccount") {
+									roles[id.Name] = "$acct"
+								}
+							case *ast.IndexExpr:
+								if strings.HasPrefix(exprString(r.X), "accounts") || strings.HasSuffix(exprString(r.X), "ccounts") {
+									roles[id.Name] = "$acct"
+								}
+							}
+						}
+					}
+				}
+				return true
+			})
+			return roles
+		}
+		// walk with the path conditions partially evaluated; EndingState (if given) is fixed
+		var walk func(n ast.Node, ev *c04Ev, path []string, visit func(ast.Node, []string))
+		addCond := func(ev *c04Ev, path []string, v c04V) ([]string, bool) {
+			if v.k == 'b' {
+				return path, v.b
+			}
+			return append(append([]string{}, path...), v.String()), true
+		}
+		walk = func(n ast.Node, ev *c04Ev, path []string, visit func(ast.Node, []string)) {
+			switch x := n.(type) {
+			case nil:
+			case *ast.BlockStmt:
+				for _, st := range x.List {
+					walk(st, ev, path, visit)
+				}
+			case *ast.IfStmt:
+				c := ev.expr(x.Cond)
+				if p, ok := addCond(ev, path, c); ok {
+					walk(x.Body, ev, p, visit)
+				}
+				if x.Else != nil {
+					neg := c04Sym("!(" + c.String() + ")")
+					if c.k == 'b' {
+						neg = c04Bool(!c.b)
+					}
+					if p, ok := addCond(ev, path, neg); ok {
+						walk(x.Else, ev, p, visit)
+					}
+				}
+			case *ast.SwitchStmt:
+				var tag *c04V
+				if x.Tag != nil {
+					t := ev.expr(x.Tag)
+					tag = &t
+				}
+				taken := false // a case known to be taken shadows the later ones
+				for _, c := range x.Body.List {
+					cc := c.(*ast.CaseClause)
+					if cc.List == nil || taken {
+						continue
+					}
+					var v c04V = c04Bool(false)
+					for _, e := range cc.List {
+						var one c04V
+						if tag == nil {
+							one = ev.expr(e)
+						} else {
+							one = ev.expr(&ast.BinaryExpr{X: x.Tag, Op: token.EQL, Y: e})
+						}
+						switch {
+						case one.k == 'b' && one.b:
+							v = c04Bool(true)
+						case one.k == 'b':
+						case v.k == 'b' && !v.b:
+							v = one
+						case v.k == 's':
+							v = c04Sym("(" + v.s + " || " + one.s + ")")
+						}
+					}
+					if p, ok := addCond(ev, path, v); ok {
+						for _, st := range cc.Body {
+							walk(st, ev, p, visit)
+						}
+						if v.k == 'b' && v.b {
+							taken = true
+						}
+					}
+				}
+				if !taken {
+					for _, c := range x.Body.List {
+						cc := c.(*ast.CaseClause)
+						if cc.List == nil {
+							// reached only when no case applies: with a fixed tag all cases were decided
+							for _, st := range cc.Body {
+								walk(st, ev, append(append([]string{}, path...), "default"), visit)
+							}
+						}
+					}
+				}
+			case *ast.ForStmt:
+				walk(x.Body, ev, path, visit)
+			case *ast.RangeStmt:
+				walk(x.Body, ev, path, visit)
+			default:
+				// bind simple local definitions so that hoisted conditions are followed
+				switch st := n.(type) {
+				case *ast.AssignStmt:
+					if len(st.Lhs) == len(st.Rhs) {
+						ev.stmt(st)
+					}
+				case *ast.DeclStmt:
+					ev.stmt(st)
+				}
+				visit(n, path)
+				ast.Inspect(n, func(m ast.Node) bool {
+					if m == nil || m == n {
+						return true
+					}
+					if _, isFn := m.(*ast.FuncLit); isFn {
+						return false
+					}
+					visit(m, path)
+					return true
+				})
+			}
+		}
+		canonPath := func(path []string) string {
+			p := append([]string{}, path...)
+			sort.Strings(p)
+			return strings.Join(p, " && ")
+		}
 		if fd := findFunc(ord, "batchStorer.StorePendingBatch"); fd != nil {
-			c04WalkConds(fd.Body, nil, func(n ast.Node, conds []string) {
+			roles := roleOf(fd)
+			diffName := ""
+			for n, r := range roles {
+				if r == "$diff" {
+					diffName = n
+				}
+			}
+			ev := &c04Ev{ce: oce, files: ord, roles: roles, vars: map[string]c04V{}, sel: map[string]c04V{
+				diffName + ".EndingState": c04Sym("auctioneerrpc.AccountDiff_OUTPUT_RECREATED")}}
+			walk(fd.Body, ev, nil, func(n ast.Node, path []string) {
 				call, ok := n.(*ast.CallExpr)
 				if !ok {
 					return
@@ -546,42 +1096,29 @@ func genC04() {
 				}
 				arg := ""
 				if len(call.Args) == 1 {
-					arg = strings.Join(strings.Fields(exprString(call.Args[0])), " ")
+					arg = c04Canon(call.Args[0], roles)
 					if strings.HasPrefix(arg, "wire.OutPoint{") {
 						arg = "wire.OutPoint{…}"
 					}
 				}
-				var labels, others []string
-				for _, c := range conds {
-					if strings.HasPrefix(c, "switch ") {
-						labels = append(labels, c)
-					} else {
-						others = append(others, c)
-					}
-				}
-				storer = append(storer, fmt.Sprintf("(%q, %q, %q, %q)", strings.Join(labels, " ; "),
-					strings.Join(others, " ; "), strings.TrimPrefix(name, "account."), arg))
+				storer = append(storer, fmt.Sprintf("(%q, %q, %q)", canonPath(path), strings.TrimPrefix(name, "account."), arg))
 			})
 		} else {
 			fail("C04: batchStorer.StorePendingBatch not found")
 		}
 		if fd := findFunc(ord, "batchVerifier.Verify"); fd != nil {
-			c04WalkConds(fd.Body, nil, func(n ast.Node, conds []string) {
+			roles := roleOf(fd)
+			ev := &c04Ev{ce: oce, files: ord, roles: roles, vars: map[string]c04V{}, sel: map[string]c04V{}}
+			walk(fd.Body, ev, nil, func(n ast.Node, path []string) {
 				as, ok := n.(*ast.AssignStmt)
 				if !ok || len(as.Lhs) != 1 || as.Tok != token.ASSIGN {
 					return
 				}
-				lhs := exprString(as.Lhs[0])
-				if !strings.HasPrefix(lhs, "acct.") {
+				lhs := c04Canon(as.Lhs[0], roles)
+				if !strings.HasPrefix(lhs, "$acct.") {
 					return
 				}
-				// only the innermost condition matters here (the enclosing loop / error checks carry none)
-				cond := ""
-				if len(conds) > 0 {
-					cond = conds[len(conds)-1]
-				}
-				verifier = append(verifier, fmt.Sprintf("(%q, %q, %q)", cond, lhs,
-					strings.Join(strings.Fields(exprString(as.Rhs[0])), " ")))
+				verifier = append(verifier, fmt.Sprintf("(%q, %q, %q)", canonPath(path), lhs, c04Canon(as.Rhs[0], roles)))
 			})
 		} else {
 			fail("C04: batchVerifier.Verify not found")
@@ -589,9 +1126,11 @@ func genC04() {
 		if len(storer) == 0 || len(verifier) == 0 {
 			fail("C04: storer / verifier account updates not recognised")
 		}
-		l.p("/-- batchStorer.StorePendingBatch: (enclosing switch case, enclosing if-conditions, modifier, argument) in source order -/")
-		l.p("def storerModifiers : List (String × String × String × String) := [%s]", strings.Join(storer, ", "))
-		l.p("/-- batchVerifier.Verify: (condition, field of the loaded account, value) it assigns before checking the re-created output -/")
+		l.p("/-- batchStorer.StorePendingBatch for `EndingState == OUTPUT_RECREATED` (path conditions partially evaluated):")
+		l.p("(remaining conditions, modifier, argument) in source order; `$batch`, `$diff`, `$acct` = the batch, the account's")
+		l.p("diff, the account as loaded -/")
+		l.p("def storerModifiers : List (String × String × String) := [%s]", strings.Join(storer, ", "))
+		l.p("/-- batchVerifier.Verify: (conditions, field of the loaded account, value) it assigns before checking the re-created output -/")
 		l.p("def verifierAccountUpdates : List (String × String × String) := [%s]", strings.Join(verifier, ", "))
 	}
 
@@ -603,21 +1142,32 @@ func genC04() {
 		if fd != nil {
 			ast.Inspect(fd.Body, func(n ast.Node) bool {
 				cl, isCl := n.(*ast.CompositeLit)
-				if !isCl || cl.Type != nil && exprString(cl.Type) != "wire.TxIn" {
+				if !isCl {
 					return true
 				}
-				// the element literal of []*wire.TxIn{{…}} has a nil Type
+				has := false
 				for _, e := range cl.Elts {
-					if kv, isKv := e.(*ast.KeyValueExpr); isKv {
-						if exprString(kv.Key) == "PreviousOutPoint" {
-							ok = true
-						}
+					if kv, isKv := e.(*ast.KeyValueExpr); isKv && exprString(kv.Key) == "PreviousOutPoint" {
+						has = true
 					}
 				}
-				if ok && len(fields) == 0 {
+				if has && !ok {
+					ok = true
 					for _, e := range cl.Elts {
 						if kv, isKv := e.(*ast.KeyValueExpr); isKv {
 							fields = append(fields, exprString(kv.Key))
+						}
+					}
+					sort.Strings(fields)
+				}
+				return true
+			})
+			// a Sequence assigned afterwards counts as set
+			ast.Inspect(fd.Body, func(n ast.Node) bool {
+				if as, isAs := n.(*ast.AssignStmt); isAs {
+					for _, lh := range as.Lhs {
+						if se, isSe := lh.(*ast.SelectorExpr); isSe && se.Sel.Name == "Sequence" {
+							fields = append(fields, "Sequence")
 						}
 					}
 				}
@@ -627,7 +1177,7 @@ func genC04() {
 		if !ok {
 			fail("C04: createSpendTx: TxIn literal not found")
 		}
-		l.p("/-- fields set in the wire.TxIn literal of createSpendTx (Sequence absent ⇒ 0) -/")
+		l.p("/-- fields set in the wire.TxIn of createSpendTx (Sequence absent ⇒ 0) -/")
 		l.p("def createSpendTxInFields : List String := %s", leanStrList(fields))
 	}
 
